@@ -177,6 +177,24 @@ def main():
                 w = REF.witness(fn, work, None)
                 run.add_bounded(f"[{label}] {fn}: native contract evaluation on the real function (ASan/UBSan)", "small offsets/lengths/sizes x 4 byte patterns, see contracts/c14_ref.py",
                                 getattr(REF.witness, "evaluations", 0), w is None, str(w or ""))
+    # C++ leg: bounded stand-in only (contracts/c14_cpp.py): every bitspan / const_bitspan primitive against the proved C
+    # function on a deterministic sweep with dirty destination buffers (ASan/UBSan)
+    from contracts import c14_cpp
+    for label, opts, std in [("any", {}, "c++14"), ("little", {"target_endianness": "little"}, "c++14")] + ([("any", {}, "c++17"), ("big", {"target_endianness": "big"}, "c++20")] if args.tier == "thorough" else []):
+        wd = pathlib.Path(tempfile.mkdtemp(prefix="vk_c14cpp_"))
+        try:
+            w, n = c14_cpp.run(wd, opts, std)
+        except Exception as ex:  # the stand-in must never turn into a verdict by crashing
+            w, n = {"harness_error": f"{type(ex).__name__}: {ex}"}, 0
+        finally:
+            shutil.rmtree(wd, ignore_errors=True)
+        if w is not None and "harness_error" in w:
+            run.undecide(f"C++ bitspan stand-in [{label},{std}]: {w['harness_error'][:300]}")
+            continue
+        run.add_bounded(f"native [{label},{std}]: C++ bitspan/const_bitspan primitives == proved C primitives (ASan/UBSan)",
+                        "buffer sizes 0..12 x offsets x lengths 0..64 x 4 byte patterns, dirty destinations; every half value; 200000 float32 patterns", n, w is None, "" if w is None else w["why"][:400])
+        if w is not None:
+            run.fail(report.Failure(f"native[{label},{std}]#c++-bitspan-primitives-agree-with-the-proved-c-primitives", "post", w["why"][:600], {"witness": w}, True))
     for work in WORKDIRS.values():
         shutil.rmtree(work, ignore_errors=True)
     run.notes["option_variants"] = [v[0] for v in variants]
